@@ -308,7 +308,7 @@ for _pid in ("C01", "C02", "C03", "C04", "C05", "C06", "C07", "C08", "C09", "C10
 # MemorySanitizer runs (clang -O0, library + harness + engine instrumented): the first (main) run of each property once more, quick bounds in both tiers;
 # every use of a value that was never initialised - a local read on a rarely taken path, a field a constructor forgot - is a violation wherever the
 # stack or heap contents happen to hide it in the other builds
-_MSAN = ("C01", "C02", "C03", "C04", "C05", "C06", "C07", "C08", "C09", "C10", "C11", "C12", "C13", "C14", "C17", "C18", "C19")
+_MSAN = ("C01", "C02", "C03", "C04", "C05", "C06", "C07", "C08", "C09", "C10", "C11", "C12", "C13", "C14", "C16", "C17", "C18", "C19")
 for _pid in _MSAN:
     _P = PROPS[_pid]
     _r = _P["runs"][0]
